@@ -62,6 +62,7 @@ structure Result where
   inFragment : Bool := false
   why : String := ""
   namesSafe : Bool := false
+  portsOK : Bool := false
   equal : Bool := false
   diff : String := ""
   matchesEqual : Bool := false
@@ -113,7 +114,7 @@ def tie (http : List Dir) (matches_ : List (String × List NjsMatch)) (s : SScen
       let my := showMatches mm
       let k := http.filter fun d => kept.contains (nameS d)
       let srv := k.filter fun d => nameS d == "server"
-      { inFragment := true, namesSafe := Render.namesSafe fs,
+      { inFragment := true, namesSafe := Render.namesSafe fs, portsOK := Render.portsOK fs,
         equal := x == y, diff := if x == y then "" else firstDiff x y,
         matchesEqual := mx == my, matchesDiff := if mx == my then "" else firstDiff mx my,
         dirs := countD k, servers := srv.length,
